@@ -183,6 +183,55 @@ def body_fb(shard, *vals):
         world.close()
 
 
+def cap3(t):
+    v = t[0] + 1
+    return v if v < 3 else 3
+
+
+def pre_fbzip(shard, *v):
+    k = len(v) // 2
+    for x in v[:k]:
+        if not (0 <= x <= 2):
+            return False
+    for s in v[k:]:
+        if not (0 <= s <= 1):
+            return False
+    return True
+
+
+def body_fbzip(shard, *v):
+    """zip(a, b) -> sink, and zip -> map(cap3) -> unique -> back into a: an element re-enters
+    the zip while the zip is still emitting."""
+    from engine.vloop import World
+    from engine.refsem import RefPipeline
+    from engine.pipeline import RealPipeline
+    k = len(v) // 2
+    vals = [pick(x, 0, 2) for x in v[:k]]
+    srcs = [pick(x, 0, 1) for x in v[k:]]
+    with untraced():
+        vd = Verdict()
+        spec = [("source", {}, [4]), ("source", {}, []), ("zip", {}, [0, 1]),
+                ("map", {"func": cap3}, [2]), ("unique", {}, [3])]
+        world = World()
+        real = RealPipeline([("source", {}, []), spec[1], spec[2], spec[3], spec[4]],
+                            source_kwargs={"asynchronous": True})
+        real.nodes[4].connect(real.nodes[0])
+        ref = RefPipeline(spec)
+        try:
+            for x, s in zip(vals, srcs):
+                world.emit(real.nodes[s], x)
+                ref.emit(s, x)
+            for i in range(5):
+                rv = [x for x, _ in real.seen(i)]
+                ev = [x for x, _ in ref.emitted[i]]
+                if not SP.values_equal(rv, ev):
+                    vd.add("wrong-output@feedback-zip")
+                    break
+            return vd.result()
+        finally:
+            world.close()
+
+
 # ------------------------------------------------------------------ slice: unbounded step
 def pre_slice_step(shard, i):
     return i >= 0
@@ -287,6 +336,8 @@ def obligations(tier):
     # feedback
     obls.append({"name": "B/feedback/k=%d" % (3 if q else 4), "body": "body_fb", "pre": "pre_fb",
                  "shard": {}, "types": ["int"] * (3 if q else 4), "budget": B})
+    obls.append({"name": "B/feedback-zip/k=%d" % (4 if q else 5), "body": "body_fbzip", "pre": "pre_fbzip",
+                 "shard": {}, "types": ["int"] * (2 * (4 if q else 5)), "budget": B})
     # D: slice unbounded step
     rng = [None, 0, 1, 2, 3]
     for s in rng:
